@@ -94,9 +94,9 @@ type pki struct {
 	leafAsCA  *authority // CA:false leaf issued by trusted, (ab)used as an issuer
 	serverCA  *authority // issues the server certificate (clients trust it)
 
-	dir                             string
-	caFile, srvCertFile, srvKeyFile string
-	clientRoots                     *x509.CertPool
+	dir                                          string
+	caFile, otherCAFile, srvCertFile, srvKeyFile string
+	clientRoots                                  *x509.CertPool
 }
 
 func newPKI(dir string, rng *mrand.Rand) (*pki, error) {
@@ -130,9 +130,10 @@ func newPKI(dir string, rng *mrand.Rand) (*pki, error) {
 		return nil, err
 	}
 	p.caFile = filepath.Join(dir, "client-ca.crt")
+	p.otherCAFile = filepath.Join(dir, "other-client-ca.crt")
 	p.srvCertFile = filepath.Join(dir, "server.crt")
 	p.srvKeyFile = filepath.Join(dir, "server.key")
-	for f, b := range map[string][]byte{p.caFile: pemCert(p.trusted.der), p.srvCertFile: pemCert(sder), p.srvKeyFile: pemKey(sk)} {
+	for f, b := range map[string][]byte{p.caFile: pemCert(p.trusted.der), p.otherCAFile: pemCert(p.other.der), p.srvCertFile: pemCert(sder), p.srvKeyFile: pemKey(sk)} {
 		if err := os.WriteFile(f, b, 0o600); err != nil {
 			return nil, err
 		}
@@ -178,7 +179,10 @@ type extraCert struct {
 
 // serverOpts: the TLS option set of the server under test.
 type serverOpts struct {
-	CA              bool   `json:"ca"`
+	CA bool `json:"ca"`
+	// TrustOther: the CA this endpoint trusts is the PKI's "other" authority instead of the
+	// "trusted" one (second endpoint of the session-resumption scenarios).
+	TrustOther      bool   `json:"trusts_the_other_ca,omitempty"`
 	ClientCertAuth  bool   `json:"client_cert_auth"`
 	AllowedCN       string `json:"allowed_cn,omitempty"`
 	AllowedHostname string `json:"allowed_hostname,omitempty"`
@@ -186,7 +190,9 @@ type serverOpts struct {
 
 func (o serverOpts) class() string {
 	var p []string
-	if o.CA {
+	if o.CA && o.TrustOther {
+		p = append(p, "otherca")
+	} else if o.CA {
 		p = append(p, "ca")
 	} else {
 		p = append(p, "noca")
@@ -210,11 +216,14 @@ func (o serverOpts) class() string {
 // judged: the property speaks about endpoints configured with a trusted CA.
 func (o serverOpts) judged() bool { return o.CA }
 
-// chainOK: the certificate was built so that it chains to the trusted CA, is inside its
-// validity window, and the client owns its key.
-func (s certSpec) chainOK() bool {
+// chainOKFor: the certificate was built so that it chains to the CA the endpoint trusts, is
+// inside its validity window, and the client owns its key.
+func (s certSpec) chainOKFor(o serverOpts) bool {
 	if !s.Present || s.WrongKey || s.Validity != "valid" {
 		return false
+	}
+	if o.TrustOther {
+		return s.Issuer == "other" || s.Issuer == "inter-bad"
 	}
 	return s.Issuer == "trusted" || s.Issuer == "inter-good"
 }
@@ -257,7 +266,7 @@ func (s certSpec) validForHost(h string) bool {
 
 // expectTLS is the oracle: accepted iff chain ok and name rule ok.
 func expectTLS(o serverOpts, s certSpec) bool {
-	if !s.chainOK() {
+	if !s.chainOKFor(o) {
 		return false
 	}
 	if o.AllowedCN != "" && s.CN != o.AllowedCN {
@@ -647,8 +656,12 @@ func extraVariants(rng *mrand.Rand, o serverOpts, right certSpec) []certSpec {
 
 // credentialsFor builds the full credential list for an option set: the canonical right one
 // first, then chain variants (with right names), then name variants (with a right chain).
-func credentialsFor(rng *mrand.Rand, o serverOpts, all bool) []certSpec {
+// canonicalSpec: the one credential that is right for an option set.
+func canonicalSpec(rng *mrand.Rand, o serverOpts) certSpec {
 	right := certSpec{Class: "canonical", Present: true, Issuer: "trusted", Validity: "valid", CN: "client-" + randWord(rng, 5)}
+	if o.TrustOther {
+		right.Issuer = "other"
+	}
 	switch {
 	case o.AllowedCN != "":
 		right.CN = o.AllowedCN
@@ -659,6 +672,11 @@ func credentialsFor(rng *mrand.Rand, o serverOpts, all bool) []certSpec {
 			right.DNS = []string{o.AllowedHostname}
 		}
 	}
+	return right
+}
+
+func credentialsFor(rng *mrand.Rand, o serverOpts, all bool) []certSpec {
+	right := canonicalSpec(rng, o)
 	out := []certSpec{right}
 	out = append(out, chainVariants(right)...)
 	switch {
